@@ -324,6 +324,28 @@ Definition compute_dssp (simplified : bool) n ch skip hb geom : list string :=
   overlay skip (map (fun s => if simplified then simplify (ss_char s) else ss_char s)
                     (dssp_frame n ch skip hb geom)).
 
+(* ---------------------------------------------------------------- fixed specification tables *)
+Definition char_spec (s : ss) : string :=
+  match s with
+  | SS_ALPHAHELIX => "H" | SS_BETABRIDGE => "B" | SS_STRAND => "E" | SS_HELIX_3 => "G"
+  | SS_HELIX_5 => "I" | SS_TURN => "T" | SS_BEND => "S" | SS_LOOP => " "
+  end.
+
+(* the fixed three-letter image *)
+Definition simplified_spec (s : ss) : string :=
+  match s with
+  | SS_ALPHAHELIX | SS_HELIX_3 | SS_HELIX_5 => "H"
+  | SS_STRAND | SS_BETABRIDGE => "E"
+  | SS_TURN | SS_BEND | SS_LOOP => "C"
+  end.
+
+(* the Python layer with the FIXED tables of the property instead of the regenerated ones (used by the
+   search when the regenerated tables no longer match them) *)
+Definition compute_dssp_spec (simplified : bool) n ch skip hb geom : list string :=
+  map (fun sc : bool * ss => let (sk, s) := sc in
+         if sk then "NA" else if simplified then simplified_spec s else char_spec s)
+      (combine (map (skip_at skip) (seq 0 n)) (dssp_frame n ch skip hb geom)).
+
 (* ---------------------------------------------------------------- comparison helpers *)
 Fixpoint strs_eqb (a b : list string) : bool :=
   match a, b with
@@ -343,3 +365,8 @@ Definition run_sensitive (c : case_ty) : bool :=
 Definition dssp_chars n ch skip hb geom : list string := map ss_char (dssp_frame n ch skip hb geom).
 Definition run_case_c (c : case_ty) : list string :=
   match c with (_, n, ch, skip, hb, geom) => dssp_chars n ch skip hb geom end.
+
+Definition run_case_spec (c : case_ty) : list string :=
+  match c with (simp, n, ch, skip, hb, geom) => compute_dssp_spec simp n ch skip hb geom end.
+Definition run_case_c_spec (c : case_ty) : list string :=
+  match c with (_, n, ch, skip, hb, geom) => map char_spec (dssp_frame n ch skip hb geom) end.
